@@ -4,7 +4,7 @@ CHECKS = {
     "C18": dict(
         pkg="./ringbuffer", hdir="ringbuffer", test="TestVerif_C18",
         quick=dict(shards=16, checks=60000, timeout=300),
-        thorough=dict(shards=16, checks=400000, timeout=1500),
+        thorough=dict(shards=16, checks=1200000, timeout=5400),
         technique="stateful property-based testing (rapid) against a reference FIFO model",
         level_text="Generated operation histories on the real shm-backed ring (writer+reader objects) are compared step by step with a "
                    "reference queue; every byte returned is checked against the absolute position it must come from, so loss, duplication "
@@ -21,7 +21,7 @@ CHECKS = {
     "C12": dict(
         pkg=".", hdir="root", test="TestVerif_C12",
         quick=dict(shards=16, checks=150000, timeout=300),
-        thorough=dict(shards=16, checks=500000, timeout=1800),
+        thorough=dict(shards=16, checks=4000000, timeout=5400),
         technique="property-based testing (rapid): integer reference model of the statement + metamorphic split-into-calls relation",
         rule="rapid-generated option sets as the real callers build them (NewAbacoGroup: rescale/unwrap/bias/pulse sign/reset interval/"
              "inversion; RoachDevice.samplePacket: 14 fraction bits, drop 2, bias on/off) x 16-bit sequences made of 1-6 segments "
@@ -39,7 +39,7 @@ CHECKS = {
     "C13": dict(
         pkg=".", hdir="root", test="TestVerif_C13",
         quick=dict(shards=16, checks=10000, timeout=300),
-        thorough=dict(shards=16, checks=50000, timeout=2400),
+        thorough=dict(shards=16, checks=300000, timeout=5400),
         technique="property-based testing (rapid) against an extended-precision (300-bit big.Float) reference with a-priori rounding bounds",
         rule="rapid-generated records (pretrigger 3..256, 1..1021 post-trigger samples; constant, full-scale, alternating extremes, pulses that "
              "wrap the signed range, noise around 32768, sloped baselines, arbitrary values; signed or unsigned) with or without 1-6 basis "
@@ -57,7 +57,7 @@ CHECKS = {
     "C14": dict(
         pkg=".", hdir="root", test="TestVerif_C14",
         quick=dict(shards=16, checks=8000, timeout=300),
-        thorough=dict(shards=16, checks=60000, timeout=2400),
+        thorough=dict(shards=16, checks=480000, timeout=5400),
         technique="property-based testing (rapid): independent decoder written from doc/BINARY_FORMATS.md (round-trip), direct and through real PUB/SUB sockets",
         rule="rapid-generated batches of 1-5 records (channel 0..65534 incl. neighbours of the subscribed channel that share one prefix byte; "
              "0..5000 samples; signed/unsigned; pre-trigger 0..70000; arbitrary float32 bit patterns for period/volts; trigger times and "
@@ -75,7 +75,7 @@ CHECKS = {
     "C15": dict(
         pkg="./packets", hdir="packets", test="TestVerif_C15(RT|RAW)?", ids=["C15", "C15RT", "C15RAW"], custom="c15_fuzz",
         quick=dict(shards=16, checks=50000, timeout=300),
-        thorough=dict(shards=16, checks=150000, timeout=2400, fuzz_seconds=100),
+        thorough=dict(shards=16, checks=150000, timeout=5400, fuzz_seconds=100),
         technique="property-based testing (rapid, structure-aware packet grammar) + encode/decode round trip + coverage-guided native go fuzzing (thorough tier)",
         rule="(i) rapid-generated byte strings = valid 16-byte header + 0-5 TLVs from a grammar (every TLV type; hostile sizes 0/too big/255; "
              "format strings incl. empty, endian-only, multi-type, unknown letters; shapes with zero/negative/huge dims; timestamp units with "
@@ -95,7 +95,7 @@ CHECKS = {
     "C05": dict(
         pkg=".", hdir="root", test="TestVerif_C05",
         quick=dict(shards=16, checks=12000, timeout=400),
-        thorough=dict(shards=16, checks=60000, timeout=3000),
+        thorough=dict(shards=16, checks=240000, timeout=5400),
         technique="stateful property-based testing (rapid) with independent file decoders (written from doc/LJH.md, the LJH3 layout and OFF 0.3.0) as round-trip oracle",
         rule="rapid-generated channel/geometry parameters (indices and geometry 0..65535, names without whitespace, 8 time bases, sub-frame "
              "divisions/offsets, 1-6 bases with arbitrary finite float64 projector/basis entries incl. +-MaxFloat64 and denormals), every "
@@ -116,7 +116,7 @@ CHECKS = {
     "C07": dict(
         pkg=".", hdir="root", test="TestVerif_C07[AB]", ids=["C07A", "C07B"],
         quick=dict(shards=16, checks=3000, timeout=600),
-        thorough=dict(shards=16, checks=25000, timeout=3000),
+        thorough=dict(shards=16, checks=75000, timeout=5400),
         technique="property-based testing (rapid) with a harness-owned disk: gate writer under asyncbufio, FIFO under the real LJH/OFF writers; byte-exact stream oracle",
         rule="(A) rapid-generated interleavings (1-60 ops) of Write(0..9000 bytes)/Flush/Close/gate-open/gate-close on asyncbufio.Writer with "
              "queue depth 1..16 over a gate writer; (B) real ljh.Writer / ljh.Writer3 / off.Writer with FileName = FIFO (pipe size 4-64 KiB, "
@@ -134,7 +134,7 @@ CHECKS = {
     "C01": dict(
         pkg=".", hdir="root", test="TestVerif_C01", wal=True,
         quick=dict(shards=16, checks=15000, timeout=600),
-        thorough=dict(shards=16, checks=40000, timeout=3000),
+        thorough=dict(shards=16, checks=240000, timeout=5400),
         technique="property-based testing (rapid): validity predicate over every emitted record against a harness-kept ground-truth stream",
         rule="rapid-generated 1-4 channel streams (any baseline incl. 0/32767/32768/65535, noise, fully random, 0-8 pulses of 5 shapes and "
              "either polarity placed preferentially within +-nsamp of block boundaries; signed/unsigned), record lengths 4..64 with "
@@ -155,7 +155,7 @@ CHECKS = {
     "C02": dict(
         pkg=".", hdir="root", test="TestVerif_C02", wal=True,
         quick=dict(shards=16, checks=12000, timeout=600),
-        thorough=dict(shards=16, checks=60000, timeout=3000),
+        thorough=dict(shards=16, checks=240000, timeout=5400),
         technique="property-based testing (rapid): independent criterion scan of the ground-truth stream (soundness + completeness + overlap + auto-gap), per configuration epoch",
         rule="rapid-generated 1-2 channel streams with pulses placed preferentially within +-nsamp of block boundaries, block partitions as "
              "in C01, edge (rising/falling/both) / level (either sense) / auto (delay, veto) mixes, and control histories: fresh start with "
@@ -175,7 +175,7 @@ CHECKS = {
     "C08": dict(
         pkg=".", hdir="root", test="TestVerif_C08", wal=True,
         quick=dict(shards=16, checks=15000, timeout=600),
-        thorough=dict(shards=16, checks=60000, timeout=3000),
+        thorough=dict(shards=16, checks=300000, timeout=5400),
         technique="property-based testing (rapid): metamorphic/differential relation one-block vs partitioned run + validity predicates",
         rule="rapid-generated one-channel streams with edges placed at indexes npre-2..npre+2 (first searchable sample), at block boundaries "
              "-+(nsamp-npre), in pairs closer together than a record, and boundary-biased pulses; all three edge-multi record modes, "
@@ -193,7 +193,7 @@ CHECKS = {
     "C09": dict(
         pkg=".", hdir="root", test="TestVerif_C09", wal=True,
         quick=dict(shards=16, checks=12000, timeout=600),
-        thorough=dict(shards=16, checks=60000, timeout=3000),
+        thorough=dict(shards=16, checks=180000, timeout=5400),
         technique="stateful property-based testing (rapid) against a set-of-pairs reference model + per-cycle multiset oracle for secondaries",
         rule="rapid-generated histories on a 2/4/6-channel LanceroSource value: 1-10 edits (add/delete with 1-4 receivers incl. out-of-range, "
              "negative, repeated and self indices; StopTriggerCoupling; SetCoupling none/FB->err/err->FB) interleaved with data blocks "
@@ -210,7 +210,7 @@ CHECKS = {
     "C06": dict(
         pkg=".", hdir="root", test="TestVerif_C06", wal=True,
         quick=dict(shards=16, checks=3000, timeout=600),
-        thorough=dict(shards=16, checks=12000, timeout=3000),
+        thorough=dict(shards=16, checks=36000, timeout=5400),
         technique="stateful property-based testing (rapid): consistency oracle between the reported writing state and decoded files/open descriptors",
         rule="rapid-generated histories (2-16 steps) on a real 2-4 channel AnySource with auto triggers (some channels with projectors): "
              "WriteControl START x every subset of {LJH2.2, LJH3, OFF} incl. empty, default / explicit / unusable path, any letter case; "
@@ -230,7 +230,7 @@ CHECKS = {
     "C20": dict(
         pkg=".", hdir="root", test="TestVerif_C20", wal=True,
         quick=dict(shards=16, checks=2500, timeout=600),
-        thorough=dict(shards=16, checks=25000, timeout=3000),
+        thorough=dict(shards=16, checks=75000, timeout=5400),
         technique="stateful property-based testing (rapid): independent decoders of the three side files compared with the harness' event log per START..STOP cycle",
         rule="rapid-generated histories (2-40 ops) on a real 1-3 channel AnySource: data blocks carrying 0..700 external-trigger counts (any int64 "
              "incl. values containing newline bytes, more than one bufio buffer) and dropped-frame counts (with or without a frame-number jump), "
@@ -249,7 +249,7 @@ CHECKS = {
     "C03": dict(
         pkg=".", hdir="root", test="TestVerif_C03", wal=True,
         quick=dict(shards=16, checks=1500, timeout=900),
-        thorough=dict(shards=16, checks=8000, timeout=3400),
+        thorough=dict(shards=16, checks=32000, timeout=5400),
         technique="property-based testing (rapid) with a scripted packet producer as the clock; reference demultiplexer as oracle",
         rule="rapid-generated group layouts (1-4 groups arriving in arbitrary order over 1-4 producers, 1-8 channels each, 1-D or 2-D shape, "
              "int16 or int32 payload, per-group sequence base up to 2^31, 1-16 frames per packet), a sampling phase of 2-6 packets per group "
@@ -271,7 +271,7 @@ CHECKS = {
     "C04": dict(
         pkg=".", hdir="root", test="TestVerif_C04", wal=True,
         quick=dict(shards=48, checks=40, timeout=900),
-        thorough=dict(shards=64, checks=600, timeout=3400),
+        thorough=dict(shards=64, checks=1200, timeout=5400),
         technique="property-based testing (rapid) with a scripted in-memory card (lancero.Lanceroer) as the clock; reference demultiplexer/mixer/external-trigger scanner as oracle",
         rule="rapid-generated geometries (1-8 columns x 2-16 rows, NSAMP 1-16), arbitrary frame contents obeying the frame-bit convention (incl. "
              "full-scale errors and feedback), a stream starting mid-frame, chunk schedules of 3-15 driver reads (frame-aligned, tiny, around the "
@@ -295,7 +295,7 @@ CHECKS = {
     "C19": dict(
         pkg=".", hdir="root", test="TestVerif_C19", wal=True,
         quick=dict(shards=16, checks=6000, timeout=900),
-        thorough=dict(shards=16, checks=30000, timeout=3400),
+        thorough=dict(shards=16, checks=90000, timeout=5400),
         technique="property-based testing (rapid): validity predicates over the identity tables of every accepted configuration + decoded file headers of a real START/STOP cycle",
         rule="rapid-generated Lancero configurations (1-3 cards with distinct device numbers 0-5 in any order, 1-8 columns, 1-40 rows (mostly equal "
              "across cards), first row -2..1000, card and column separations 0, negative, exactly sufficient, one too small, larger; optionally the "
@@ -317,7 +317,7 @@ CHECKS = {
         pkg=".", hdir="root", test="TestVerif_C16(Crash)?", ids=["C16", "C16CRASH"], wal=True,
         env={"VERIF_NO_GLOBAL_CHANNELS": "1"},
         quick=dict(shards=32, checks=1, per_test={"TestVerif_C16": 20, "TestVerif_C16Crash": 1}, timeout=900),
-        thorough=dict(shards=48, checks=1, per_test={"TestVerif_C16": 300, "TestVerif_C16Crash": 12}, timeout=3400),
+        thorough=dict(shards=48, checks=2, per_test={"TestVerif_C16": 600, "TestVerif_C16Crash": 24}, timeout=5400),
         technique="stateful property-based testing (rapid) of the real status publisher against a last-message-per-topic model; round trip through the real save and the start-up read path; "
                   "fault enumeration: kill -9 on entry to every file-system call of a save (strace syscall injection) followed by the start-up read path",
         rule="(a,b) rapid-generated histories of 1-30 status updates over 3, 8 or all 21 topics (real tags, incl. no-save and no-publish ones; 3 value "
@@ -341,7 +341,7 @@ CHECKS = {
     "C11": dict(
         pkg=".", hdir="root", test="TestVerif_C11", wal=True,
         quick=dict(shards=32, checks=200, timeout=900),
-        thorough=dict(shards=32, checks=1500, timeout=3400),
+        thorough=dict(shards=32, checks=4500, timeout=5400),
         technique="stateful property-based testing (rapid) of the real SourceControl + Start/CoreLoop: watchdog with goroutine-dump quiescence test, progress counter, enter/exit monitor around block processing and request application",
         rule="rapid-generated request histories (requests before start, 2-14 while running, 1-4 after the source stopped or ended itself, optionally a "
              "restart and more) from one client against a real SourceControl: ConfigureTriggers (indices in/out of range/negative/empty, all trigger kinds "
@@ -366,7 +366,7 @@ CHECKS = {
     "C10": dict(
         pkg=".", hdir="root", test="TestVerif_C10", wal=True,
         quick=dict(shards=32, checks=25, timeout=900),
-        thorough=dict(shards=48, checks=500, timeout=3400),
+        thorough=dict(shards=48, checks=1500, timeout=5400),
         technique="stateful property-based testing (rapid) over one source object driven through the real Start/CoreLoop/Stop: watchdog with goroutine-dump quiescence test, goroutine census, open-descriptor scan",
         rule="rapid-generated life-cycle histories (1-3 rounds on the same object) for a scripted source on the real AnySource (ends itself with an error "
              "block or a closed channel on command; Sample or StartRun can be made to fail once), TriangleSource, SimPulseSource, ErroringSource, "
@@ -389,7 +389,7 @@ CHECKS = {
         pkg=".", hdir="root", test="TestVerif_C17", wal=True, race=True,
         env={"GORACE": "log_path={work}/race halt_on_error=0 exitcode=0 history_size=3", "VERIF_RACE_LOG": "{work}/race"},
         quick=dict(shards=32, checks=12, timeout=1200),
-        thorough=dict(shards=48, checks=250, timeout=3400),
+        thorough=dict(shards=48, checks=500, timeout=5400),
         technique="race-detector monitored property-based testing: rapid-generated pipeline workloads run in a -race build; every detector report is a failure (signature = pair of innermost dastard frames)",
         rule="rapid-generated workloads in a binary built with the Go race detector: 40% life-cycle histories (C10 generator: scripted / Triangle / SimPulse / "
              "Erroring / Abaco with scripted producer / Abaco over real UDP; concurrent Stops, self-termination, queued requests, writing, raw-data archive "
